@@ -70,7 +70,7 @@ def main():
             # store the patch re-based on the current tree
             q = subprocess.run(['diff', '-u', '-r', '-x', 'tests', '-x', '*.orig', clean, mut], capture_output=True, text=True)
             txt = q.stdout.replace(clean + '/', 'a/').replace(mut + '/', 'b/')
-            txt = '\n'.join(l for l in txt.split('\n') if not l.startswith('diff -u')) 
+            txt = '\n'.join(l for l in txt.split('\n') if not l.startswith('diff -u') and not l.startswith('Only in ')) 
             open(os.path.join(dest, 'patch.diff'), 'w').write(txt)
             shutil.copy2(dm, os.path.join(dest, 'demo.py'))
             json.dump({'property': prop, 'title': props[prop]['title'], 'summary': note.get('summary'),
